@@ -511,7 +511,7 @@ func runC16(c *Ctx) {
 		}
 		usesOriginal := false
 		core.EachInstr(fn, func(in ssa.Instruction) {
-			if call, ok := in.(*ssa.Call); ok && call.Call.StaticCallee() != nil && call.Call.StaticCallee().Name() == "base64" &&
+			if call, ok := in.(*ssa.Call); ok && call.Call.StaticCallee() != nil && core.FnName(call.Call.StaticCallee()) == "base64" &&
 				strings.HasSuffix(core.Path(call.Call.Args[0]), ".original.Protected") {
 				if guardOn(call.Block(), func(a core.Atom) bool { return strings.HasSuffix(a.L, ".original") && a.Op == "!=" }) {
 					usesOriginal = true
@@ -522,7 +522,7 @@ func runC16(c *Ctx) {
 		precedence := true
 		core.EachInstr(fn, func(in ssa.Instruction) {
 			call, ok := in.(*ssa.Call)
-			if !ok || call.Call.StaticCallee() == nil || call.Call.StaticCallee().Name() != "base64" || !strings.HasSuffix(core.Path(call.Call.Args[0]), ".original.Protected") {
+			if !ok || call.Call.StaticCallee() == nil || core.FnName(call.Call.StaticCallee()) != "base64" || !strings.HasSuffix(core.Path(call.Call.Args[0]), ".original.Protected") {
 				return
 			}
 			if guardOn(call.Block(), func(a core.Atom) bool { return strings.HasSuffix(a.L, ".protected") }) {
@@ -539,7 +539,7 @@ func runC16(c *Ctx) {
 	if fn := P.Func(pkg, "(JsonWebEncryption).computeAuthData"); fn != nil {
 		ok := false
 		core.EachInstr(fn, func(in ssa.Instruction) {
-			if call, isCall := in.(*ssa.Call); isCall && call.Call.StaticCallee() != nil && call.Call.StaticCallee().Name() == "base64URLEncode" &&
+			if call, isCall := in.(*ssa.Call); isCall && call.Call.StaticCallee() != nil && core.FnName(call.Call.StaticCallee()) == "base64URLEncode" &&
 				strings.HasSuffix(core.Path(call.Call.Args[0]), ".aad") {
 				// the serialisations cannot tell an empty "aad" from an absent one (the member is omitted when empty), so the
 				// guard must be on the length: an empty non-nil slice given to EncryptWithAuthData is "no additional data"
@@ -567,7 +567,7 @@ func runC16(c *Ctx) {
 			if !ok || call.Call.StaticCallee() == nil || len(call.Call.Args) == 0 {
 				return
 			}
-			cn := call.Call.StaticCallee().Name()
+			cn := core.FnName(call.Call.StaticCallee())
 			if cn != "newBuffer" && cn != "newFixedSizeBuffer" {
 				return
 			}
@@ -578,7 +578,7 @@ func runC16(c *Ctx) {
 			recv := bc.Call.Args[0]
 			rp := core.Path(recv)
 			isCoord := strings.HasSuffix(rp, ".X") || strings.HasSuffix(rp, ".Y")
-			if par, isPar := recv.(*ssa.Parameter); isPar && (par.Name() == "x" || par.Name() == "y") && strings.Contains(strings.ToLower(fn.Name()), "ec") {
+			if par, isPar := recv.(*ssa.Parameter); isPar && (core.ParamName(par) == "x" || core.ParamName(par) == "y") && strings.Contains(strings.ToLower(core.FnName(fn)), "ec") {
 				isCoord = true
 			}
 			if !isCoord {
@@ -595,16 +595,24 @@ func runC16(c *Ctx) {
 	}
 	if es != nil {
 		n := 0
+		// in signPayload itself, or in a module helper it calls (the r||s encoding extracted into a function)
+		scan := []*ssa.Function{es}
 		core.EachInstr(es, func(in ssa.Instruction) {
-			if ms, ok := in.(*ssa.MakeSlice); ok && strings.Contains(core.Path(ms.Len), "keyBytes") || false {
-				_ = ms
-			}
-			if sl, ok := in.(*ssa.Slice); ok && sl.Low != nil {
-				if bo, isB := sl.Low.(*ssa.BinOp); isB && bo.Op == token.SUB && strings.HasPrefix(core.Path(bo.Y), "len(") {
-					n++
+			if call, ok := in.(*ssa.Call); ok {
+				if f := call.Call.StaticCallee(); f != nil && core.InModule(f) && core.ShortPkg(f) == core.ShortPkg(es) && f.Parent() == nil && len(f.Blocks) > 0 {
+					scan = append(scan, f)
 				}
 			}
 		})
+		for _, f := range scan {
+			core.EachInstr(f, func(in ssa.Instruction) {
+				if sl, ok := in.(*ssa.Slice); ok && sl.Low != nil {
+					if bo, isB := sl.Low.(*ssa.BinOp); isB && bo.Op == token.SUB && strings.HasPrefix(core.Path(bo.Y), "len(") {
+						n++
+					}
+				}
+			})
+		}
 		R.Check(n == 2, "C16.width", "jose|(ecDecrypterSigner).signPayload|fixed-width-r-s", P.Pos(es.Pos()),
 			"r and s are right-aligned into fixed-width buffers", fmt.Sprintf("ECDSA r and s are not both left-padded to the curve byte size (%d padded copies found)", n), nil)
 	}
@@ -660,7 +668,15 @@ func checkJoseParseKeepsProtected(c *Ctx) {
 // without an error.
 func checkJoseInflateWhole(c *Ctx) {
 	P, R := c.P, c.R
-	fn := P.Func("https/jose", "inflate")
+	// by role: the function that opens the flate reader (inflate on the pinned tree)
+	var fn *ssa.Function
+	for _, f := range P.ModuleFuncs("https/jose") {
+		core.EachInstr(f, func(in ssa.Instruction) {
+			if call, ok := in.(*ssa.Call); ok && call.Call.StaticCallee() != nil && core.FullName(call.Call.StaticCallee()) == "flate.NewReader" && fn == nil {
+				fn = f
+			}
+		})
+	}
 	if !R.Anchor(fn != nil, "C16.gate", "https/jose.inflate") {
 		return
 	}
@@ -772,7 +788,6 @@ func isReturnBlock(b *ssa.BasicBlock) bool {
 	_, ok := b.Instrs[len(b.Instrs)-1].(*ssa.Return)
 	return ok && len(b.Instrs) <= 3
 }
-
 
 // checkJoseInputsNotModified: the primitives that work on bytes owned by the parsed object (the wrapped key, the
 // ciphertext) compute on copies. Writing through the input corrupts the parsed object, so a second Decrypt - or a
